@@ -16,9 +16,10 @@ func init() {
 		Explanation: "Decides structural necessary conditions of path containment: " +
 			"(R1) every containment guard strings.HasPrefix(p, R) with R derived from a component root is well-formed: R is separator-terminated at the point of use (constant ending in the separator, R+sep, or the HasSuffix idiom; filepath.Clean/Join results are NOT terminated) or equality with the root is tested separately, and p is canonical (result of filepath.Join/Clean/Abs, path.Join/Clean or a Walk callback path, traced through callers) or the function additionally rejects a '..'-prefixed filepath.Rel result; " +
 			"(R2) every file-system sink of the file-tree backend takes a path derived from buildFilePath's success result (or a Walk path below it), archive entries are created only behind the unpack-directory guard, EnsureAbsPath creates directories only behind its scope checks. " +
-			"(R3) the directory walk of the file-tree backend reads a visited file only behind the backend's scope predicate (or a well-formed root+separator prefix test) on that path; the internal DirStructure.ensure, which creates directories without any check, is called only by Ensure (for the root) and by EnsureAbsPath (behind its checks). " +
+			"(R3) the directory walk of the file-tree backend reads a visited file only behind the backend's scope predicate (or a well-formed root+separator prefix test) on that path; the internal DirStructure.ensure, which creates directories without any check, is called only by itself (towards the children) and by EnsureAbsPath (behind its checks). " +
+			"(R4) nothing case-folding (EqualFold, ToLower, ...) is statically reachable from the functions that decide scope (fstree isInScope/buildFilePath, EnsureAbsPath, unpackZipArchive, ScanStorage): paths are compared exactly. " +
 			"NOT decided: symlink traversal, platform path semantics, the run-time value of roots.",
-		Rules: []ruleFn{c18R1, c18R2, c18R3},
+		Rules: []ruleFn{c18R1, c18R2, c18R3, c18R4},
 	})
 }
 
@@ -617,13 +618,10 @@ func c18R3(c *Ctx, r *Report) {
 	// (b) who may call DirStructure.ensure
 	for _, s := range c.CallSites("utils.DirStructure.ensure") {
 		caller := fnKey(s.Fn)
-		args := s.Instr.(ssa.CallInstruction).Common().Args
 		cons := fmt.Sprintf("%s / call DirStructure.ensure", caller)
 		switch caller {
 		case "utils.(*DirStructure).ensure":
 			r.Trivial(rule, cons, "recursion towards the parent structure")
-		case "utils.(*DirStructure).Ensure":
-			r.Check(isNilConst(args[1]), rule, cons, "ensures the root itself (no relative elements)", "Ensure passes path elements to the unchecked ensure()", c.Pos(s.Instr.Pos()))
 		case "utils.(*DirStructure).EnsureAbsPath":
 			r.OK(rule, cons, "behind EnsureAbsPath's scope checks (C18-R2)")
 		default:
